@@ -144,10 +144,16 @@ def run_case(case: dict) -> dict:
             gc.collect()
             before = native_threads()
             label = f"fb/{comp or 'none'} shards={len(paths)} examples={total} T={T} drop after {position} gated={gated} repeat={repeat}"
+            alive_right_after = None
             try:
                 if gated:
-                    with Gate(paths, work, policy="random", seed=position, expect=min(T, len(paths)), rounds=4):
+                    # a slow feeder: a worker that was not joined stays blocked on its shard for a while after
+                    # the drop returned, and is seen by the thread count taken right then
+                    with Gate(paths, work, policy="random", seed=position, expect=min(T, len(paths)), rounds=4,
+                              settle=0.3):
                         drop(dataset, T, position, repeat)
+                        time.sleep(0.12)
+                        alive_right_after = native_threads() - before
                 else:
                     drop(dataset, T, position, repeat)
             except BaseException as exc:  # pylint: disable=broad-exception-caught
@@ -156,6 +162,12 @@ def run_case(case: dict) -> dict:
                 violations.append({"key": "early-drop-raised", "msg": f"{label}: {type(exc).__name__}: {str(exc)[:200]}"})
                 continue
             obs["early_drops"] += 1
+            if alive_right_after is not None:
+                obs["thread_counts_right_after_drop"] += 1
+                if alive_right_after > 0:
+                    violations.append({"key": "threads-alive-when-drop-returned",
+                                       "msg": f"{label}: {alive_right_after} native reader thread(s) were still alive 0.12 s "
+                                              f"after the iterator's close() had returned (they are not joined)"})
             deadline = time.monotonic() + 3.0
             while native_threads() > before and time.monotonic() < deadline:
                 time.sleep(0.01)
